@@ -1548,6 +1548,40 @@ def normalise_format_and_getattr(fn) -> int:
     return int(done > 0)
 
 
+def normalise_yoda(fn) -> int:
+    """`0 < x` -> `x > 0`, `'' == ext` -> `ext == ''`, `Result.MISCTYPE == code` -> `code == Result.MISCTYPE`: a single comparison with a
+    CONSTANT (literal, signed literal, ALL-CAPS attribute / name) on the left and a non-constant on the right is written with the constant
+    on the right, in place.  Chained comparisons are left alone."""
+    if 'Compare' not in _vocab(fn):
+        return 0
+    SW = {ast.Lt: ast.Gt, ast.Gt: ast.Lt, ast.LtE: ast.GtE, ast.GtE: ast.LtE, ast.Eq: ast.Eq, ast.NotEq: ast.NotEq}
+    done = 0
+
+    def const(e) -> bool:
+        if isinstance(e, ast.Constant) and e.value is not None:
+            return True
+        if isinstance(e, ast.UnaryOp) and isinstance(e.op, (ast.USub, ast.UAdd)) and isinstance(e.operand, ast.Constant):
+            return True
+        if isinstance(e, ast.Attribute) and e.attr.isupper() and len(e.attr) > 1:
+            return True
+        if isinstance(e, ast.Name) and e.id.isupper() and len(e.id) > 2:
+            return True
+        return False
+
+    class R(ast.NodeTransformer):
+        def visit_Compare(self, n):
+            nonlocal done
+            self.generic_visit(n)
+            if len(n.ops) == 1 and type(n.ops[0]) in SW and const(n.left) and not const(n.comparators[0]):
+                done += 1
+                return ast.copy_location(ast.Compare(left=n.comparators[0], ops=[SW[type(n.ops[0])]()], comparators=[n.left]), n)
+            return n
+    R().visit(fn.node)
+    if done:
+        ast.fix_missing_locations(fn.node)
+    return int(done > 0)
+
+
 def normalise_negations(fn) -> int:
     """Negations written out, in place: `not (a is None)` -> `a is not None` (is / is not / == / != / in / not in; never the ordering
     comparisons, whose negation differs for NaN), `not not x` -> `x` in a test position, and `if not X: B else: A` -> `if X: A else: B`
@@ -2363,6 +2397,7 @@ def flatten_model(model) -> Optional[Flattener]:
     fl.calls = run(normalise_calls, model)
     fl.dispatch = run(normalise_dispatch)
     fl.out_ufuncs = run(normalise_out_ufuncs)
+    fl.yoda = run(normalise_yoda)
     fl.negations = run(normalise_negations)
     fl.casts = run(normalise_casts)
     fl.reshapes = run(normalise_reshape_spellings)
@@ -2425,7 +2460,7 @@ def flatten_model(model) -> Optional[Flattener]:
     _VOCAB.clear()          # splicing changed the callers
     fl.identity_stores = run(drop_identity_stores)
     # the spliced bodies may bring spellings the first passes normalised only in the callers
-    for pass_ in (normalise_negations, normalise_casts, normalise_out_ufuncs, normalise_reshape_spellings, normalise_dict_builders, normalise_string_locals,
+    for pass_ in (normalise_yoda, normalise_negations, normalise_casts, normalise_out_ufuncs, normalise_reshape_spellings, normalise_dict_builders, normalise_string_locals,
                   normalise_fro_norms, normalise_named_tests):
         run(pass_)
     fl.collectors = run(normalise_collectors)
